@@ -1,4 +1,10 @@
 #include <fault/util.hpp>
+#ifdef YACLIB_VERIF
+#  include <yaclib/fault/verif_hook.hpp>
+namespace yaclib::verif {
+Hooks* gHooks = nullptr;
+}
+#endif
 
 namespace yaclib::detail {
 
@@ -20,6 +26,11 @@ std::uint32_t GetSeed() {
 }
 
 std::uint64_t GetRandNumber(std::uint64_t max) {
+#ifdef YACLIB_VERIF
+  if (verif::gHooks != nullptr && verif::gHooks->rand != nullptr) {
+    return verif::gHooks->rand(max);
+  }
+#endif
 #if YACLIB_FAULT == 2
   sRandCount++;
 #endif
